@@ -121,6 +121,9 @@ func (c *Compiler) Code() *Code {
 // Compile the given AST node and return the compiled code object.
 func (c *Compiler) Compile(node ast.Node) (*Code, error) {
 	c.failure = nil
+	// A previous call that failed inside a function body left the compiler
+	// positioned in that function's code
+	c.current = c.main
 	if c.main.source == "" {
 		c.main.source = node.String()
 	} else {
